@@ -267,6 +267,18 @@ class SymEval:
                 self._all_defs.setdefault(v, set()).add(n)
         self._memo: Dict[Tuple[int, int], Term] = {}
         self._comp_bound: List[Set[str]] = []
+        # locals that are mutated in place (x.append(..), x += [..] is a definition already, rng.shuffle(x)): the expression
+        # that created them does not describe their later value
+        self._mutated: Set[str] = set()
+        for n in cfg.nodes:
+            for x in cfg.walk_node(n):
+                if isinstance(x, ast.Call) and isinstance(x.func, ast.Attribute):
+                    if x.func.attr in _MUTATING_METHODS and isinstance(x.func.value, ast.Name):
+                        self._mutated.add(x.func.value.id)
+                    if x.func.attr in ("shuffle",):
+                        for a in x.args:
+                            if isinstance(a, ast.Name):
+                                self._mutated.add(a.id)
 
     # -- variable resolution -----------------------------------------------------------------
     def var_defs(self, name: str, at: int) -> FrozenSet[int]:
@@ -297,7 +309,7 @@ class SymEval:
             if nd.kind == "entry":
                 return ("param", name)
             val = self.cfg.def_value(d, name)
-            if (name + "[]") in self._all_defs:
+            if (name + "[]") in self._all_defs or name in self._mutated:
                 val = None  # elements are stored into the object later: its defining expression no longer describes it
             if val is not None and depth < self.max_depth and nd.kind == "stmt" and isinstance(nd.ast, (
                     ast.Assign, ast.AnnAssign)):
@@ -507,6 +519,9 @@ class SymEval:
         return ("cmp", type(op).__name__, a, b)
 
 
+_MUTATING_METHODS = {"append", "extend", "insert", "pop", "remove", "sort", "reverse", "clear", "update", "add", "discard",
+                     "setdefault", "popitem", "appendleft", "mul_", "add_", "sub_", "div_", "fill_", "zero_", "copy_",
+                     "clamp_", "masked_fill_", "index_fill_"}
 _DRAW_METHODS = {"random", "integers", "uniform", "normal", "standard_normal", "choice", "permutation", "permuted",
                  "shuffle", "beta", "binomial", "exponential", "gamma", "poisson", "bytes", "multinomial", "triangular",
                  "laplace", "lognormal", "rand", "randn", "randint", "random_", "normal_", "uniform_", "bernoulli_",
